@@ -89,7 +89,7 @@ theorem create_ok_state {s s' : St} {name ty : String} {o : Opts} {out : Out}
   · injection h with h1 h2
     injection h1 with h1
     subst h1 h2
-    refine ⟨determine_parse_print hc hs hdet, (haveLocal_iff _ _).mp (haveLocal_addLocal _ a), ?_, ht, rfl⟩
+    refine ⟨parse_print_of_parse0 (determine_parse_print hc hs hdet), (haveLocal_iff _ _).mp (haveLocal_addLocal _ a), ?_, ht, rfl⟩
     show fetch (putNet s (recHash H s name ty o) ⟨name, ty, recAcl s o⟩).net a.root = _
     rw [determine_root hdet]
     exact fetch_putNet s _ _
